@@ -347,6 +347,7 @@ func runC05(c *report.Ctx) {
 	ruleCommonLock(c, func(loc string) bool { return secretLocs[loc] }, "the unlock flag, the master/crypto private keys and the cached private keys are written and read under a common exclusive lock: a refused passphrase attempt that runs concurrently with a successful one cannot leave its wrongly derived key in an unlocked manager", 3)
 	ruleRefusalByKeyMaterialOnly(c)
 	ruleClearAllKeystores(c)
+	ruleCryptoKeySealing(c)
 }
 
 func rootBase(fa *ssa.FieldAddr) ssa.Value {
